@@ -115,26 +115,31 @@ theorem push_strict (w : Nat) (s : Frame) (u : Unit) (s1 : Frame) (h : (push w s
 -- ---------------------------------------------------------------- (b) gas never increases
 
 /-- (b) one iteration of the interpreter loop never increases the remaining gas -/
-theorem step_gas_monotone (env : Env) (s : Frame) : (step env s).val.2.gas ≤ s.gas := (step env s).property.1
+theorem step_gas_monotone (child : ChildFn) (env : Env) (s : Frame) : (step child env s).val.2.gas ≤ s.gas := (step child env s).property.1
 
 /-- an error, once in the sink, stays there -/
-theorem step_error_sticky (env : Env) (s : Frame) (h : s.err.isSome = true) : (step env s).val.2.err.isSome = true :=
-  (step env s).property.2 h
+theorem step_error_sticky (child : ChildFn) (env : Env) (s : Frame) (h : s.err.isSome = true) :
+    (step child env s).val.2.err.isSome = true :=
+  (step child env s).property.2 h
 
 /-- the same for the pieces of an iteration: cost lookup (with its memory growth) and instruction body -/
-theorem gasLookUp_gas_monotone (i : Gen.Gas.OpInfo) (s : Frame) : (gasLookUp i s).val.2.gas ≤ s.gas := (gasLookUp i s).property.1
-theorem exec_gas_monotone (env : Env) (op : Nat) (s : Frame) : (exec env op s).val.2.gas ≤ s.gas := (exec env op s).property.1
+theorem gasLookUp_gas_monotone (q : Quirks) (self : Nat) (i : Gen.Gas.OpInfo) (s : Frame) : (gasLookUp q self i s).val.2.gas ≤ s.gas :=
+  (gasLookUp q self i s).property.1
+/-- including CALL / CALLCODE / DELEGATECALL / STATICCALL, whatever the callee does: the refund of the callee's unused
+    gas is capped by what the frame had before the call (`withRefund`) -/
+theorem exec_gas_monotone (child : ChildFn) (env : Env) (op : Nat) (s : Frame) : (exec child env op s).val.2.gas ≤ s.gas :=
+  (exec child env op s).property.1
 
 /-- (b) a whole run never increases the remaining gas -/
-theorem run_gas_monotone (env : Env) : ∀ (fuel : Nat) (s : Frame), (run env fuel s).2.gas ≤ s.gas := by
+theorem run_gas_monotone (child : ChildFn) (env : Env) : ∀ (fuel : Nat) (s : Frame), (run child env fuel s).2.gas ≤ s.gas := by
   intro fuel
   induction fuel with
   | zero => intro s; exact Nat.le_refl _
   | succ n ih =>
     intro s
     unfold run
-    have hs := step_gas_monotone env s
-    match hm : step env s with
+    have hs := step_gas_monotone child env s
+    match hm : step child env s with
     | ⟨(none, s'), _⟩ => simp only []; rw [hm] at hs; exact hs
     | ⟨(some .cont, s'), _⟩ => simp only []; rw [hm] at hs; exact Nat.le_trans (ih s') hs
     | ⟨(some (.done r e), s'), _⟩ => simp only []; rw [hm] at hs; exact hs
@@ -174,8 +179,8 @@ theorem regular_ops_cost (op : Nat) (h : op < 256) (h1 : isExt op = false) (h2 :
   exact regular_ops_cost_table op h h1 h2 h3
 
 /-- the cost returned by the lookup is at least the table's static cost -/
-theorem gasLookUp_ge_static (info : Gen.Gas.OpInfo) (s : Frame) (c : Nat × Nat) (s1 : Frame)
-    (h : (gasLookUp info s).val = (some c, s1)) : info.static ≤ c.1 := by
+theorem gasLookUp_ge_static (q : Quirks) (self : Nat) (info : Gen.Gas.OpInfo) (s : Frame) (c : Nat × Nat) (s1 : Frame)
+    (h : (gasLookUp q self info s).val = (some c, s1)) : info.static ≤ c.1 := by
   unfold gasLookUp at h
   split at h
   · rw [pure_val] at h
@@ -215,23 +220,31 @@ theorem finish_halt_not_cont (r : ByteArray) (s s' : Frame) : (finish (.halt r) 
   rw [pure_val] at h2
   simp at h2
 
-theorem execHalt_halts (op : Nat) (s : Frame) (c : Ctl) (s1 : Frame) (h : (execHalt op s).val = (some c, s1)) :
-    ∃ r, c = .halt r := by
+theorem finish_unsupported_not_cont (s s' : Frame) : (finish .unsupported s).val ≠ (some .cont, s') := by
+  intro h
+  unfold finish at h
+  rw [pure_val] at h
+  simp at h
+
+theorem execHalt_halts (env : Env) (op : Nat) (s : Frame) (c : Ctl) (s1 : Frame) (h : (execHalt env op s).val = (some c, s1)) :
+    (∃ r, c = .halt r) ∨ c = .unsupported := by
   unfold execHalt at h
   obtain ⟨r, _, _, h2⟩ := bind_some h
   rw [pure_val] at h2
   simp at h2
-  exact ⟨r, h2.1.symm⟩
+  cases r with
+  | some b => left; exact ⟨b, h2.1.symm⟩
+  | none => right; exact h2.1.symm
 
-theorem execFree_strict (env : Env) (op : Nat) (s : Frame) (c : Ctl) (s1 : Frame)
-    (h : (execFree env op s).val = (some c, s1)) : Strict s s1 := by
+theorem execFree_strict (child : ChildFn) (env : Env) (op : Nat) (s : Frame) (c : Ctl) (s1 : Frame)
+    (h : (execFree child env op s).val = (some c, s1)) : Strict s s1 := by
   unfold execFree at h
   split at h
   · exact strict_bind (push_strict _) s c s1 h
   · exact strict_bind pop_strict s c s1 h
 
-theorem stepBody_strict (env : Env) (op : Nat) (hop : op < 256) (hext : isExt op = false) (s s' : Frame)
-    (h : (stepBody env op s).val = (some .cont, s')) : Strict s s' := by
+theorem stepBody_strict (child : ChildFn) (env : Env) (op : Nat) (hop : op < 256) (hext : isExt op = false) (s s' : Frame)
+    (h : (stepBody child env op s).val = (some .cont, s')) : Strict s s' := by
   unfold stepBody at h
   obtain ⟨cost, s1, h1, h⟩ := bind_some h
   obtain ⟨ok, s2, h2, h⟩ := bind_some h
@@ -243,10 +256,24 @@ theorem stepBody_strict (env : Env) (op : Nat) (hop : op < 256) (hext : isExt op
     simp at h
   | true =>
     simp at h
-    obtain ⟨c, s3, h3, h4⟩ := bind_some h
     obtain ⟨hle, hgas⟩ := chargeOrStop_true cost.1 s1 s2 h2
-    -- the memory expansion between the charge and the instruction
-    obtain ⟨_, s2', hx, h3⟩ := bind_some h3
+    -- the memory expansion between the charge and the instruction, then the check of the error sink
+    obtain ⟨_, s2', hx, h⟩ := bind_some h
+    obtain ⟨fr, s2'', hg, h⟩ := bind_some h
+    have hg' : fr = s2' ∧ s2'' = s2' := by
+      have : (getF s2').val = (some s2', s2') := rfl
+      rw [this] at hg
+      simp at hg
+      exact ⟨hg.1.symm, hg.2.symm⟩
+    rw [hg'.1, hg'.2] at h
+    cases herr : s2'.err with
+    | some e0 =>
+      simp only [herr] at h
+      rw [pure_val] at h
+      simp at h
+    | none =>
+    simp only [herr] at h
+    obtain ⟨c, s3, h3, h4⟩ := bind_some h
     have ix : Inv s2 s2' := inv_of hx
     have i3 : Inv s2' s3 := inv_of h3
     have i4 : Inv s3 s' := inv_of h4
@@ -256,14 +283,19 @@ theorem stepBody_strict (env : Env) (op : Nat) (hop : op < 256) (hext : isExt op
     cases hh : isHalting op with
     | true =>
       simp [hh] at h3
-      obtain ⟨r, hr⟩ := execHalt_halts op s2' c s3 h3
-      subst hr
-      exact absurd h4 (finish_halt_not_cont r s3 s')
+      cases execHalt_halts _ op s2' c s3 h3 with
+      | inl hr =>
+        obtain ⟨r, hr⟩ := hr
+        subst hr
+        exact absurd h4 (finish_halt_not_cont r s3 s')
+      | inr hr =>
+        subst hr
+        exact absurd h4 (finish_unsupported_not_cont s3 s')
     | false =>
       cases hf : isFree op with
       | true =>
         simp [hh, hf] at h3
-        have st : Strict s2' s3 := execFree_strict env op s2' c s3 h3
+        have st : Strict s2' s3 := execFree_strict child env op s2' c s3 h3
         have st' : Strict s2' s' := st.then_inv i4
         cases st' with
         | inl hlt => left; have := i1.1; have := ix.1; omega
@@ -271,7 +303,7 @@ theorem stepBody_strict (env : Env) (op : Nat) (hop : op < 256) (hext : isExt op
       | false =>
         -- obtain the lookup result: cost ≥ static ≥ 1
         obtain ⟨_, s0, _, hl⟩ := bind_some h1
-        have hc : (opInfo op).static ≤ cost.1 := gasLookUp_ge_static _ _ _ _ hl
+        have hc : (opInfo op).static ≤ cost.1 := gasLookUp_ge_static _ _ _ _ _ _ hl
         have h1' : 1 ≤ (opInfo op).static := regular_ops_cost op hop hext hh hf
         left
         have := i1.1; have := ix.1; have := i3.1; have := i4.1
@@ -285,14 +317,22 @@ theorem opAt_lt (env : Env) (pc : Nat) : opAt env pc < 256 := by
 
 /-- (c) an iteration that lets the loop continue has lowered the remaining gas by at least 1, or has put
     an error into the sink (then the next iteration ends the frame) -/
-theorem step_costs_at_least_one (env : Env) (s s' : Frame) (hs : s.err = none)
-    (h : (step env s).val = (some .cont, s')) : Strict s s' := by
+theorem step_costs_at_least_one (child : ChildFn) (env : Env) (s s' : Frame) (hs : s.err = none)
+    (h : (step child env s).val = (some .cont, s')) : Strict s s' := by
   unfold step at h
   simp only [hs] at h
   split at h
   · simp at h
   · rename_i hext
-    exact stepBody_strict env _ (opAt_lt env s.pc) (by simpa using hext) s s' h
+    split at h
+    · obtain ⟨_, _, _, h2⟩ := bind_some h
+      rw [pure_val] at h2
+      simp at h2
+    · have hext' : isExt (opAt env s.pc) = false := by
+        cases hx : isExt (opAt env s.pc) with
+        | false => rfl
+        | true => simp [hx] at hext
+      exact stepBody_strict child env _ (opAt_lt env s.pc) hext' s s' h
 
 -- ---------------------------------------------------------------- (d) termination
 
@@ -300,29 +340,29 @@ theorem step_costs_at_least_one (env : Env) (s s' : Frame) (hs : s.err = none)
 def budget (s : Frame) : Nat := if s.err.isSome then 0 else s.gas + 1
 
 /-- (d) the loop never runs out of fuel when it is given `budget + 1` iterations -/
-theorem run_terminates_aux (env : Env) : ∀ (fuel : Nat) (s : Frame), budget s + 1 ≤ fuel →
-    (∀ s', run env fuel s ≠ (.outOfFuel, s')) := by
+theorem run_terminates_aux (child : ChildFn) (env : Env) : ∀ (fuel : Nat) (s : Frame), budget s + 1 ≤ fuel →
+    (∀ s', run child env fuel s ≠ (.outOfFuel, s')) := by
   intro fuel
   induction fuel with
   | zero => intro s h; omega
   | succ n ih =>
     intro s hb s' hr
     unfold run at hr
-    match hm : step env s with
+    match hm : step child env s with
     | ⟨(none, s1), _⟩ => rw [hm] at hr; simp at hr
     | ⟨(some (.done r e), s1), _⟩ => rw [hm] at hr; simp at hr
     | ⟨(some .unsupported, s1), _⟩ => rw [hm] at hr; simp at hr
     | ⟨(some .cont, s1), _⟩ =>
       rw [hm] at hr
       simp only [] at hr
-      have hv : (step env s).val = (some .cont, s1) := by rw [hm]
+      have hv : (step child env s).val = (some .cont, s1) := by rw [hm]
       -- the error sink was empty, otherwise the iteration would have ended the frame
       cases he : s.err with
       | some e =>
         unfold step at hv
         simp [he] at hv
       | none =>
-        have st := step_costs_at_least_one env s s1 he hv
+        have st := step_costs_at_least_one child env s s1 he hv
         have hb' : budget s1 + 1 ≤ n := by
           unfold budget at hb ⊢
           simp [he] at hb
@@ -333,8 +373,8 @@ theorem run_terminates_aux (env : Env) : ∀ (fuel : Nat) (s : Frame), budget s 
 
 /-- (d) execution with initial gas g ends within g + 2 iterations of the interpreter loop
     (g gas-consuming iterations, one that raises the error, one that reports it) -/
-theorem run_terminates (env : Env) (s : Frame) (s' : Frame) : run env (s.gas + 2) s ≠ (.outOfFuel, s') := by
-  apply run_terminates_aux env (s.gas + 2) s
+theorem run_terminates (child : ChildFn) (env : Env) (s : Frame) (s' : Frame) : run child env (s.gas + 2) s ≠ (.outOfFuel, s') := by
+  apply run_terminates_aux child env (s.gas + 2) s
   unfold budget
   split <;> omega
 
@@ -342,9 +382,9 @@ theorem run_terminates (env : Env) (s : Frame) (s' : Frame) : run env (s.gas + 2
 
 /-- (e) when the cost found for the next instruction exceeds what is left, the iteration ends the frame with
     InsufficientGas, returns nothing and does not touch the remaining gas -/
-theorem oog_reported (env : Env) (op : Nat) (s s1 : Frame) (cost : Nat × Nat)
-    (hl : ((noteSeen op >>= fun _ => gasLookUp (opInfo op)) s).val = (some cost, s1)) (hlt : s1.gas < cost.1) :
-    (stepBody env op s).val = (some (.done .empty (some .insufficientGas)), s1) := by
+theorem oog_reported (child : ChildFn) (env : Env) (op : Nat) (s s1 : Frame) (cost : Nat × Nat)
+    (hl : ((noteSeen op >>= fun _ => gasLookUp env.q env.callee (opInfo op)) s).val = (some cost, s1)) (hlt : s1.gas < cost.1) :
+    (stepBody child env op s).val = (some (.done .empty (some .insufficientGas)), s1) := by
   unfold stepBody
   rw [bind_val_of_some hl]
   have hc : (chargeOrStop cost.1 s1).val = (some false, s1) := by
